@@ -42,6 +42,7 @@ class AckFamily:
         if two:
             ops.append({'op': 'start', 'mid': 'm1', 'vars': {'pid': 'p2'}})      # a second process: clear(pid) and actions must not touch its messages
         ops += [{'op': 'run'}, {'op': 'snapshot', 'level': 'msgs'}]
+        raced = False
         for _ in range(rng.randint(3, 9)):
             k = rng.random()
             if k < 0.12:
@@ -50,11 +51,23 @@ class AckFamily:
                 ops.append({'op': 'msg_clear', 'pid': rng.choice(['p1', 'p1', 'p2', 'nosuch'])} if rng.random() < 0.7 else {'op': 'msg_clear'})
             elif k < 0.35:
                 ops += [{'op': 'act', 'target': {'pid': rng.choice(['p1', 'p2']) if two else 'p1', 'kind': 'act', 'state': 'interrupted', 'occ': rng.choice([0, -1])}, 'action': 'next'}, {'op': 'run'}]
+            elif k < 0.5 and opts.get('races', True):
+                # the tick runs while clients acknowledge delivered messages (and act) from their own threads
+                sel = rng.choice([{'chan': 'main'}, {'type': 'act'}, {'type': 'step'}, {'state': 'created'}, {'type': 'workflow'}])
+                race = {'op': 'tick_race', 'select': sel, 'spin_us': rng.choice([0, 0, 20, 100, 300])}
+                if rng.random() < 0.3:
+                    race['calls'] = [{'target': {'pid': 'p1', 'kind': 'act', 'state': 'interrupted', 'occ': rng.choice([0, -1])}, 'action': 'next'}]
+                ops += [{'op': 'advance', 'ms': rng.choice([I + 1, I + 1, 3 * I, I // 2])}, race, {'op': 'run'}]
+                raced = True
             else:
                 ops += [{'op': 'advance', 'ms': rng.choice([I // 2, I + 1, I + 1, 3 * I, I - 1])}, {'op': 'tick'}, {'op': 'run'}]
             ops.append({'op': 'snapshot', 'level': 'msgs'})
+        if raced:
+            ops += [{'op': 'advance', 'ms': I + 1}, {'op': 'tick'}, {'op': 'run'}, {'op': 'snapshot', 'level': 'msgs'}]
         rt = rng.choice([{'flavor': 'current'}, {'flavor': 'current', 'chaos': {'max_yields': 3, 'seed': rng.randrange(1, 1 << 40)}}, {'flavor': 'multi', 'workers': 2, 'chaos': {'max_yields': 2, 'seed': rng.randrange(1, 1 << 40)}}])
-        sc = {'id': '', 'family': 'ack', 'sched': rt['flavor'] + '-' + store, 'runtime': rt, 'engine': {'store': store, 'keep_processes': True, 'max_retry': max_retry, 'tick_interval_secs': interval_s}, 'models': [json.dumps(wf)],
+        if raced and rng.random() < 0.7:
+            rt = {'flavor': 'multi', 'workers': 2, 'chaos': {'max_yields': 2, 'pause_us': rng.choice([20, 100, 300]), 'seed': rng.randrange(1, 1 << 40)}}
+        sc = {'id': '', 'family': 'ack', 'sched': rt['flavor'] + '-' + store + ('-raced' if raced else ''), 'runtime': rt, 'engine': {'store': store, 'keep_processes': True, 'max_retry': max_retry, 'tick_interval_secs': interval_s}, 'models': [json.dumps(wf)],
               'channels': [{'id': 'main', 'ack': True}], 'responder': {'mode': rng.choice(['quiescent', 'quiescent', 'inline']), 'rules': rules}, 'ops': ops, 'watchdog_ms': 60000}
         return {'scenarios': [sc], 'meta': {'wf': wf, 'I': I, 'max': max_retry, 'store': store}, 'digest': digest([wf, rules, ops, max_retry, I]), 'nontrivial': True}
 
@@ -69,7 +82,7 @@ class AckFamily:
         windows = []
         prev = 0
         for o in h.ops:
-            if o['op'] == 'tick':
+            if o['op'] in ('tick', 'tick_race'):
                 windows.append((prev, o['seq'], o['res']['t_before'], o['res']['t_after']))
             prev = o['seq']
 
@@ -79,8 +92,16 @@ class AckFamily:
                     return w
             return None
         redelivered = collections.defaultdict(list)   # (window start) -> ids
+        # the engine decides a redelivery when it emits it; the handler runs later, from a spawned task.  "Redelivered
+        # after acked" is judged on the emission: the k-th delivery record of an id is paired with its k-th emission
+        emits = collections.defaultdict(collections.deque)
+        for e in h.R:
+            if e['t'] == 'emit' and e.get('what') == 'message':
+                emits[e['id']].append(e['seq'])
         for e in h.R:
             t = e['t']
+            if t == 'deliver' and e['chan'] == 'main':
+                e = dict(e, emit_seq=emits[e['id']].popleft() if emits[e['id']] else e['seq'])
             if t in ('deliver', 'cb') and e['chan'] == 'main':
                 i = e['id']
                 obs['c09.deliveries'] += 1
@@ -107,6 +128,9 @@ class AckFamily:
                 w = window_of(e['seq'])
                 obs['c09.redeliveries'] += 1
                 x.pop('maybe_completed', None)
+                if x['status'] != 'created' and e.get('emit_seq', e['seq']) < x.get('status_seq', 0):
+                    obs['c09.redeliveries-emitted-before-the-status-change'] += 1
+                    continue
                 if x['status'] != 'created':
                     out.append(V('C09', 'redelivered-after-' + x['status'], store, f"message {x['desc']} was redelivered (retry {e['retry']}) although its status is {x['status']}", scenario=sid))
                     continue
@@ -130,7 +154,14 @@ class AckFamily:
                 x['retry'] = e['retry']
                 x['last'] = e['now']
             elif t == 'ack' and e['ok'] and e['id'] in M:
-                M[e['id']]['status'] = 'acked'
+                x = M[e['id']]
+                if x['status'] == 'cleared':
+                    continue                  # its row is gone: the ack finds nothing and says Ok
+                if x['status'] == 'completed' or x.get('maybe_completed'):
+                    x['closed_twice'] = True  # acknowledged and acted on: either closing status is the last one written
+                if x['status'] == 'created' or 'status_seq' not in x:
+                    x['status_seq'] = e['seq']
+                x['status'] = 'acked'
                 obs['c09.acks'] += 1
             elif t == 'action' and e['ok'] and e['action'] != 'push':
                 for x in M.values():
@@ -140,11 +171,17 @@ class AckFamily:
                             # when the action closed the messages of this task
                             x['maybe_completed'] = True
                         else:
+                            if x['status'] == 'acked':
+                                x['closed_twice'] = True
+                            if x['status'] == 'created' or 'status_seq' not in x:
+                                x['status_seq'] = e['seq']
                             x['status'] = 'completed'
                 obs['c09.actions'] += 1
             elif t == 'op':
                 op = sc['ops'][e['i']]
-                if op['op'] == 'tick':
+                if op['op'] in ('tick', 'tick_race'):
+                    if op['op'] == 'tick_race':
+                        obs['c09.ticks-raced-with-client-calls'] += 1
                     w = [w for w in windows if w[1] == e['seq']][0]
                     tb, ta = w[2], w[3]
                     for i, x in M.items():
@@ -158,6 +195,7 @@ class AckFamily:
                             out.append(V('C09', 'not-redelivered-when-due', store, f"message {x['desc']} (created, retry {x['retry']}/{MAX}) was not redelivered at a tick {tb - x['last']} ms after its last delivery (interval {I})", scenario=sid))
                         elif due and x['retry'] >= MAX:
                             x['status'] = 'error'
+                            x['status_seq'] = e['seq']
                             obs['c09.exhausted'] += 1
                         elif x['retry'] >= MAX:
                             x['maybe_error'] = True      # not provably due: the engine may or may not have marked it
@@ -200,6 +238,8 @@ class AckFamily:
                                 x.pop('maybe_error', None)
                                 x.pop('maybe_redo', None)
                                 continue
+                        if x.get('closed_twice') and rs in ('acked', 'completed'):
+                            continue
                         if rs != x['status']:
                             out.append(V('C09', 'stored-status', f"{store}:{x['status']}->{rs}", f"message {x['desc']}: stored status {rs}, the status automaton says {x['status']} (retry {x['retry']}/{MAX})", scenario=sid))
                             x['status'] = rs if rs in ('created', 'acked', 'completed', 'error') else x['status']
